@@ -1149,10 +1149,14 @@ class Irc(IrcCommandDispatcher, log.Firewalled):
         """Helper function to check whether a given string is a channel on
         the network this Irc object is connected to."""
         kw = {}
-        if 'chantypes' in self.state.supported:
-            kw['chantypes'] = self.state.supported['chantypes']
-        if 'channellen' in self.state.supported:
-            kw['channellen'] = self.state.supported['channellen']
+        # A 005 token without a value (e.g. a bare "CHANTYPES") is stored
+        # as None; ircutils.isChannel can't use that, keep its default.
+        chantypes = self.state.supported.get('chantypes')
+        if chantypes is not None:
+            kw['chantypes'] = chantypes
+        channellen = self.state.supported.get('channellen')
+        if channellen is not None:
+            kw['channellen'] = channellen
         return ircutils.isChannel(s, **kw)
 
     def isNick(self, s):
